@@ -1,4 +1,5 @@
 import CashewsVerif.Lemmas.MemStep
+import CashewsVerif.Lemmas.Sweep
 /-
 C01 — the in-memory store is a TTL key-value map for every command history.
 Property theorems only; helper lemmas live in `Lemmas/`.
@@ -143,7 +144,64 @@ theorem get_many_positional (cap : Nat) (K : List Key) (hK : K.length ≤ cap)
   rw [g2.2]
   simp [TtlMap.step]
 
+/-- **Purge sweeps are invisible to the ideal map** (command granularity).  In a history of application
+commands and purge ticks - every tick one *atomic* sweep, see Model/Sweep.lean - the commands get exactly
+the answers the ideal map gives to the commands alone, with the ticks left out: wherever the ticks fall,
+however many there are.  (`mem_refines_ttlmap` says the same with `Op.purge` as a command that the ideal
+map ignores; this form removes the sweeps from the specification side altogether.) -/
+theorem sweeps_invisible (cap : Nat) (K : List Key) (hK : K.length ≤ cap)
+    (h : List Item) (hh : ∀ it ∈ h, ∀ k ∈ it.toOp.keys, k ∈ K) :
+    ((Mem.init cap).runItems h).2 = (TtlMap.init.run (Item.cmds h)).2 :=
+  (Mem.good_runItems h (Mem.good_init K cap hK) hh).2
+
+/-- **A sweep that looks at each entry when it handles it is invisible even if it is not atomic.**
+Key granularity: `recheck k` (= `await self.get(k)` by the purge task) may fall anywhere between the
+commands, for any keys of the universe, in any number - complete sweeps, partial ones, sweeps cut in
+pieces by commands.  The commands still get the ideal map's answers.  So for C01 the atomicity of the
+sweep is *not* needed as long as the sweep re-checks; the hypothesis `isStale = false` is what is
+needed: `stale_split_sweep_is_visible` below shows that a sweep acting on an earlier decision is
+visible as soon as one command gets between the decision and the act. -/
+theorem recheck_sweep_invisible (cap : Nat) (K : List Key) (hK : K.length ≤ cap) (evs : List Ev)
+    (hev : ∀ ev ∈ evs, ev.isStale = false ∧ ∀ k ∈ ev.keys, k ∈ K) :
+    ((Mem.init cap).runEv evs).2 = (TtlMap.init.run (Ev.cmds evs)).2 :=
+  (Mem.good_runEv evs (Mem.good_init K cap hK) hev).2
+
+/-- the events of the seeded change C11-6 / C06-4: keys 0 and 1 are expired when the tick starts; the
+sweep decides to remove both, removes 0, suspends; the application writes 1 afresh; the sweep removes 1 -/
+def staleSplit : List Ev :=
+  [.cmd (.set 0 (.tok 0) (some 8) .always), .cmd (.set 1 (.tok 1) (some 8) .always), .cmd (.adv 8),
+   .stale 0, .cmd (.set 1 (.tok 2) (some 80) .always), .stale 1, .cmd (.get 1)]
+
+/-- the same sweep, uninterrupted -/
+def staleAtomic : List Ev :=
+  [.cmd (.set 0 (.tok 0) (some 8) .always), .cmd (.set 1 (.tok 1) (some 8) .always), .cmd (.adv 8),
+   .stale 0, .stale 1, .cmd (.set 1 (.tok 2) (some 80) .always), .cmd (.get 1)]
+
+/-- **Why the hypothesis is there**: a snapshot sweep cut in two by one write loses that write - the read
+answers "missing" where the ideal map holds the fresh value; uninterrupted, the same sweep is invisible. -/
+theorem stale_split_sweep_is_visible :
+    ((Mem.init 4).runEv staleSplit).2 ≠ (TtlMap.init.run (Ev.cmds staleSplit)).2 ∧
+    ((Mem.init 4).runEv staleAtomic).2 = (TtlMap.init.run (Ev.cmds staleAtomic)).2 := by decide
+
 /-! ### Non-vacuity: a concrete history meets the hypotheses and exercises the interesting states -/
+
+/-- premises of `sweeps_invisible` / `recheck_sweep_invisible` are satisfiable by histories in which the
+sweeps have something to collect: a tick between the deadline of key 0 and its re-write; a re-checking
+sweep over keys 0,1 cut in two by that re-write -/
+example : (∀ it ∈ [Item.cmd (.set 0 (.tok 0) (some 8) .always), .cmd (.adv 8), .tick,
+      .cmd (.set 0 (.tok 1) none .nx), .tick, .cmd (.get 0)], ∀ k ∈ it.toOp.keys, k ∈ [0, 1]) ∧
+    ((Mem.init 2).runItems [.cmd (.set 0 (.tok 0) (some 8) .always), .cmd (.adv 8), .tick,
+      .cmd (.set 0 (.tok 1) none .nx), .tick, .cmd (.get 0)]).2
+      = [.bool true, .unit, .bool true, .val (some (.tok 1))] := by
+  refine ⟨by decide, by decide⟩
+
+example : (∀ ev ∈ [Ev.cmd (.set 0 (.tok 0) (some 8) .always), .cmd (.set 1 (.tok 1) (some 8) .always), .cmd (.adv 8),
+      .recheck 0, .cmd (.set 1 (.tok 2) (some 80) .always), .recheck 1, .cmd (.get 1)],
+      ev.isStale = false ∧ ∀ k ∈ ev.keys, k ∈ [0, 1]) ∧
+    ((Mem.init 2).runEv [.cmd (.set 0 (.tok 0) (some 8) .always), .cmd (.set 1 (.tok 1) (some 8) .always), .cmd (.adv 8),
+      .recheck 0, .cmd (.set 1 (.tok 2) (some 80) .always), .recheck 1, .cmd (.get 1)]).2
+      = [.bool true, .bool true, .unit, .bool true, .val (some (.tok 2))] := by
+  refine ⟨by decide, by decide⟩
 
 /-- keys {0,1}, capacity 2: write with TTL, jump past the deadline with no access in between,
 then an only-if-absent write, a TTL query, a counter and a TTL-less overwrite all hit the
